@@ -602,7 +602,7 @@ impl World for C07 {
 
     fn budget(&self, tier: Tier) -> Budget {
         match tier {
-            Tier::Quick => Budget { runs: 1500, wall_s: 90, block: 100, recheck: 32, hang_s: 90 },
+            Tier::Quick => Budget { runs: 4000, wall_s: 90, block: 100, recheck: 32, hang_s: 90 },
             Tier::Thorough => Budget { runs: 150_000, wall_s: 1500, block: 300, recheck: 200, hang_s: 90 },
         }
     }
